@@ -22,29 +22,71 @@ func (fr *frame) callBuiltin(callpos token.Pos, fn *ssa.Builtin, args []value) v
 			return args[0]
 		}
 		arg0 := args[0].([]value)
+		var src []value
+		deep := false
 		switch s := args[1].(type) {
 		case string:
-			for i := 0; i < len(s); i++ {
-				arg0 = append(arg0, s[i])
-			}
-			return arg0
+			src = strToSym(s).b
 		case *symString:
-			return append(arg0, s.b...)
+			src = s.b
+		case []value:
+			src = s
+			if len(src) > 0 {
+				switch src[0].(type) {
+				case structure, array:
+					deep = true
+				}
+			}
 		}
-		src := args[1].([]value)
 		if len(src) == 0 {
 			return arg0
 		}
-		needCopy := false
-		switch src[0].(type) {
-		case structure, array:
-			needCopy = true
+		need := len(arg0) + len(src)
+		if need > cap(arg0) {
+			// grow: spare capacity is filled with typed zero values so that
+			// reslicing up to cap exposes proper zeros (as in Go)
+			newcap := 2 * cap(arg0)
+			if newcap < need {
+				newcap = need
+			}
+			if newcap < 4 {
+				newcap = 4
+			}
+			ns := make([]value, newcap)
+			copy(ns, arg0)
+			var elemT types.Type
+			if sig, ok := fn.Type().(*types.Signature); ok && sig.Params().Len() > 0 {
+				if st, ok := sig.Params().At(0).Type().Underlying().(*types.Slice); ok {
+					elemT = st.Elem()
+				}
+			}
+			if elemT != nil {
+				z := zero(elemT)
+				_, isS := z.(structure)
+				_, isA := z.(array)
+				for i := need; i < newcap; i++ {
+					if isS || isA {
+						ns[i] = zero(elemT)
+					} else {
+						ns[i] = z
+					}
+				}
+			}
+			arg0 = ns[:len(arg0)]
+		} else {
+			// in-place append writes into shared backing store: log for undo
+			for i := len(arg0); i < need; i++ {
+				in.undo = append(in.undo, undoRec{addr: &arg0[:need][i], old: arg0[:need][i]})
+			}
 		}
-		if !needCopy {
-			return append(arg0, src...)
-		}
-		for _, e := range src {
-			arg0 = append(arg0, copyVal(e))
+		base := len(arg0)
+		arg0 = arg0[:need]
+		for i, e := range src {
+			if deep {
+				arg0[base+i] = copyVal(e)
+			} else {
+				arg0[base+i] = e
+			}
 		}
 		return arg0
 
